@@ -147,6 +147,55 @@ def sites5(repo):
     return out
 
 
+VALUE = re.compile(r"(?<![\w.&])((?:self|[a-z_][a-z_0-9]*)(?:\.[a-z_][a-z_0-9]*)+)(?![\w(.!])")
+SOME = re.compile(r"\bSome\(")
+
+
+def _matching(code, k):
+    d = 0
+    for j in range(k, len(code)):
+        if code[j] == "(":
+            d += 1
+        elif code[j] == ")":
+            d -= 1
+            if d == 0:
+                return j
+    return -1
+
+
+def sites6(repo):
+    """sixth operator set: a value read (`a.b.c`) replaced by 0, `Some(x)` replaced by None, `x.len()` replaced by 0"""
+    out = []
+    for f in FILES:
+        p = os.path.join(repo, f)
+        if not os.path.exists(p):
+            continue
+        lines = open(p).read().split("\n")
+        end = len(lines)
+        for i, l in enumerate(lines):
+            if l.strip().startswith("#[cfg(test)]"):
+                end = i
+                break
+        for i in range(end):
+            l = lines[i]
+            s_ = l.strip()
+            if not s_ or s_.startswith("//") or s_.startswith("#[") or s_.startswith("use ") or "debug!(" in s_ or "error!(" in s_ or "info!(" in s_ or "trace!(" in s_ or "warn!(" in s_:
+                continue
+            code = l.split("//")[0]
+            for m in VALUE.finditer(code):
+                rest = code[m.end():].lstrip()
+                if rest.startswith("=") and not rest.startswith("=="):
+                    continue  # assignment target
+                out.append((f, i, m.start(), m.group(1), "0", "value-0"))
+            for m in SOME.finditer(code):
+                j = _matching(code, m.end() - 1)
+                if j > 0 and "=>" not in code[j:] and not code[:m.start()].rstrip().endswith("let") and "if let" not in code and "while let" not in code and not code[j + 1:].lstrip().startswith("="):
+                    out.append((f, i, m.start(), code[m.start():j + 1], "None", "some-none"))
+            for m in re.finditer(r"(?<![\w.])((?:self|[a-z_][a-z_0-9]*)(?:\.[a-z_][a-z_0-9]*)*)\.len\(\)", code):
+                out.append((f, i, m.start(), m.group(0), "0", "len-0"))
+    return out
+
+
 def sites(repo, ops2=False):
     out = []
     for f in FILES:
@@ -273,13 +322,14 @@ def main():
     ap.add_argument("--files", default="")
     ap.add_argument("--every", type=int, default=1, help="take every n-th site")
     ap.add_argument("--out", default="")
+    ap.add_argument("--ops6", action="store_true", help="sixth operator set: value reads replaced by 0, Some(x) by None, len() by 0")
     ap.add_argument("--ops5", action="store_true", help="fifth operator set: swallowed errors, deleted early returns / breaks")
     ap.add_argument("--ops4", action="store_true", help="fourth operator set: conditions forced to true / false")
     ap.add_argument("--ops3", action="store_true", help="third operator set: positional arguments swapped, assignments deleted")
     ap.add_argument("--ops2", action="store_true", help="second operator set: identifier swaps, dropped negations, constants - 1")
     a = ap.parse_args()
     props = [c["property_id"] for c in json.load(open(os.path.join(HERE, "MANIFEST.json")))["checks"]]
-    all_sites = sites5("/repo") if a.ops5 else sites4("/repo") if a.ops4 else sites3("/repo") if a.ops3 else sites("/repo", a.ops2)
+    all_sites = sites6("/repo") if a.ops6 else sites5("/repo") if a.ops5 else sites4("/repo") if a.ops4 else sites3("/repo") if a.ops3 else sites("/repo", a.ops2)
     if a.files:
         keep = a.files.split(",")
         all_sites = [s for s in all_sites if any(k in s[0] for k in keep)]
